@@ -31,8 +31,15 @@ DecodeLaw == LET s == Ser(c)
              IN IF Valid(c) THEN /\ d.ok /\ d.out = Apply(c) /\ Len(d.out) = OutLen(c)
                                  /\ Flat(ApplyR(c)) = Apply(c)
                                  /\ DecodeInto(s, OutLen(c)).ok
+                                 /\ Against(c, d.out) = "ok"
+                                 /\ (d.out # <<>> => Against(c, [d.out EXCEPT ![Len(d.out)] = (@ + 1) % 256]) # "ok")
+                                 /\ Against(c, Append(d.out, 0)) = "output-shorter-than-input"
+                                 /\ (d.out # <<>> => Against(c, SubSeq(d.out, 1, Len(d.out) - 1)) = "output-longer-than-input")
                                  /\ (OutLen(c) > 0 => ~DecodeInto(s, OutLen(c) - 1).ok)
-                ELSE ~d.ok /\ d.why = Check(c)
+                ELSE /\ ~d.ok /\ d.why = Check(c)
+                     \* an invalid offset is reported whatever the comparison bytes are
+                     /\ Against(c, [i \in 1..OutLen(c) |-> 0]) \in {Check(c), "literal-differs-from-input", "copy-differs-from-input"}
+                     /\ Against(c, [i \in 1..OutLen(c) |-> 0]) # "ok"
 \* every proper prefix of a valid block is invalid; so is a wrong declared length
 PrefixLaw == Valid(c) /\ Len(c) <= 2 =>
                 LET s == Ser(c) IN
